@@ -865,7 +865,8 @@ namespace ip {
 			}
 			case aux::packet::type_t::syn_ack:
 			{
-				assert(m_connect_handler);
+				// the connect may have been cancelled while the SYN was in flight
+				if (!m_connect_handler) return;
 				boost::system::error_code ec;
 				post(m_io_service, aux::make_malloc(std::bind(std::move(m_connect_handler), ec)));
 				m_connect_handler = nullptr;
